@@ -2,14 +2,10 @@
 #![allow(clippy::all)]
 #![allow(dead_code)]
 
-mod engine;
-mod gens;
-mod props;
-mod sqlrun;
-
 use std::path::PathBuf;
 
-use engine::*;
+use rlv::engine::*;
+use rlv::{props, sqlrun};
 
 fn arg_val(args: &[String], name: &str) -> Option<String> {
     args.iter().position(|a| a == name).and_then(|i| args.get(i + 1).cloned())
